@@ -227,6 +227,8 @@ class Var:
         if n == "Exponential":
             return x >= 0, "negative"
         if n == "Uniform":
+            if q[0] == q[1]:
+                return (Fraction(x) == q[0] or x == float(q[0])), "a zero-width Uniform has exactly one point"
             tol = Fraction(1, 10 ** 12) * max(1, abs(q[0]), abs(q[1]))
             return q[0] - tol <= Fraction(x) <= q[1] + tol, "outside [lo, hi]"
         return True, ""
@@ -661,7 +663,8 @@ def check(ctx):
            "Bernoulli(0)", "Bernoulli(1)", "Binomial(20, 0)", "Binomial(20, 1)", "Binomial(40, 1/2)", "Geometric(1)", "Geometric(1/1000)",
            "Binomial(2000, 0.0005)", "Binomial(600, 1/3000)", "Binomial(1000, 0.999)", "Binomial(3000, 1/2)", "Poisson(60)",
            "Geometric(0.999)", "Poisson(1)", "Poisson(12)", "Exponential(1/1000)", "Exponential(1000)", "Uniform(10^15, 10^15+1)",
-           "Uniform(-1/1000, 1/1000)", "Uniform(5, 5)", "Uniform(-10^6, 10^6)", "Gaussian(0, 1/1000)", "Gaussian(10^6, 1)"]
+           "Uniform(-1/1000, 1/1000)", "Uniform(5, 5)", "Uniform(1.7, 1.7)", "Uniform(1.3, 1.3)", "Uniform(9.9, 9.9)", "Uniform(2.6, 2.6)",
+           "Uniform(-1.3, -1.3)", "Uniform(0.1, 0.1 + 1e-16)", "Uniform(1/3, 1/3)", "Uniform(-10^6, 10^6)", "Gaussian(0, 1/1000)", "Gaussian(10^6, 1)"]
     nbig = ctx.n(1500, 30000)
     with Tap(R) as tap:
         for t in big:
